@@ -250,6 +250,10 @@ func (f *defaultFactory) doCreateComponent(name string, meta *component_definiti
 }
 
 func (f *defaultFactory) populateComponent(name string, meta *component_definition.Meta) error {
+	// candidates are discovered anew on every attempt: a creation retried after a failure must not add to the ones left behind
+	for _, node := range meta.GetComponentProperties() {
+		node.Injects = nil
+	}
 	err := f.postProcessorRegistrationDelegate.ResolveAfterInstantiation(meta, name)
 	if err != nil {
 		return err
